@@ -32,6 +32,11 @@ TARGETED = [
     'select a from t where length(b) > 1 and ifnull(c, 0) = 1 and char_length(d) < now() order by ceil(e), upper(f)',
     'select coalesce(lower(a), substr(b, 1, 2)) from t where abs(c) = round(d, 1) group by concat(a, b) having max(length(a)) > 1',
     'insert into t (a) select length(b) from u where ifnull(c, 1) = 1',
+    # long but ordinary statements (a few hundred terms): nothing may escape the fallback for them either
+    'select a from t where ' + ' or '.join('c%d = %d' % (i, i) for i in range(300)),
+    'select ' + ' + '.join('c%d' % i for i in range(300)) + ' from t',
+    'select a from t where ' + ' and '.join('c%d > %d' % (i, i) for i in range(250)),
+    'select a from t where b in (' + ', '.join(str(i) for i in range(500)) + ')',
     # single-element lists, boundary numbers, values that overflow to inf, odd column lists
     'select a from t where b in (1)', "select a from t where b in ('x')", 'select a from t where b not in (c + 1)', 'select a from t where b in (?)',
     'select a from t where b in ((1))', 'select a from t where (b) in (1, 2)', 'select a from t limit 0', 'select a from t where b = -0',
